@@ -466,3 +466,20 @@ ADDED19 = {
 for _pid, _extra in ADDED19.items():
     t, text, note, ref = CLAIMED[_pid]
     CLAIMED[_pid] = (t, text + _extra, note, ref)
+
+ADDED20 = {
+ "C01": " Round 20: the name the special-form dispatch compares is computed from the current form on every lap (C01.dispatch-fresh) and by no test that asks the scope (C01.dispatch-by-name).",
+ "C03": " Round 20: C20.mapped and C20.results adopted (every error a builtin returns is wrapped the same way; the adapters decide 'error or not' by comparing with nil).",
+ "C05": " Round 20: no LispPrint method hands its own receiver to the printer (C05.print-descends: unbounded recursion is a fatal error no barrier stops).",
+ "C06": " Round 20: the tokenizer hands the text to nothing but the scanner's input (C06.scanner-only); the token accessors compare no token text (C06.token-blind).",
+ "C11": " Round 20: package-level objects of types from outside the module are of types documented as safe for concurrent use (C11.shared-objects).",
+ "C12": " Round 20: every call gets a scope of its own (C01.scope-new as C12.scope-new); C12.dispatch-fresh and C12.dispatch-by-name (the forms quasiquote writes mean the special forms they spell in every scope).",
+ "C14": " Round 20: C02.write adopted as C14.operands-intact (no builtin writes into a collection it was handed, so a comparison made once stays true).",
+ "C15": " Round 20: every value stored into the placeholder table is the reader's answer for the entry's text (C15.entry-read).",
+ "C16": " Round 20: the REPL's rune filter rejects only control characters (C16.input-filter).",
+ "C18": " Round 20: the panic audit, comparisons of interface values included, over the functions that run only under a stepper (C18.stepping-total).",
+ "C20": " Round 20: C13.apply-args adopted as C20.apply-args (a function reached through apply is invoked with all the arguments of the call).",
+}
+for _pid, _extra in ADDED20.items():
+    t, text, note, ref = CLAIMED[_pid]
+    CLAIMED[_pid] = (t, text + _extra, note, ref)
